@@ -229,6 +229,7 @@ class Collector(object):
     """what a replay worker needs of harness.core.Check; merged into the real Check by merge_into"""
     def __init__(self):
         self.evals, self.keys, self.traces, self.samples, self.viol = 0, set(), 0, [], {}
+        self.extra = {}                     # integer counters, summed over the chunks
 
     def case(self, nontrivial=False, key=None, n=1):
         self.evals += n
@@ -250,7 +251,8 @@ class Collector(object):
         return True
 
     def dump(self):
-        return {"evals": self.evals, "nontriv": len(self.keys), "traces": self.traces, "samples": self.samples, "viol": self.viol}
+        return {"evals": self.evals, "nontriv": len(self.keys), "traces": self.traces, "samples": self.samples, "viol": self.viol,
+                "extra": self.extra}
 
 
 def merge_into(ck, d):
@@ -258,6 +260,8 @@ def merge_into(ck, d):
     ck.evaluations += d["evals"]
     ck.nontrivial_anon += d["nontriv"]          # chunks partition the cases, so keys of different chunks are distinct
     ck.traces += d["traces"]
+    for k, v in d.get("extra", {}).items():
+        ck.extra[k] = ck.extra.get(k, 0) + v
     for smp in d["samples"]:
         ck.sample(smp)
     for key in sorted(d["viol"]):
